@@ -93,13 +93,17 @@ let show_split = function
 let unus inp = String.map (fun c -> if c = '_' then ' ' else c) inp
 
 (* session ops: n Next, r Rest, e Err, z Reset, s Scanner.Split, a Each to the end, b / c Each whose
-   callback returns false at the first / second token *)
-let xops_of rest =
+   callback returns false at the first / second token, x / y Each whose callback panics at the first /
+   second token (the harness recovers; for the scanner that is a callback that stopped the loop) *)
+let xop_of_char = function
+  | 'n' -> Some M.XNext | 'r' -> Some M.XRest | 'e' -> Some M.XErr | 'z' -> Some M.XReset | 's' -> Some M.XSplit
+  | 'a' -> Some (M.XEach M.O) | 'b' | 'x' -> Some (M.XEach (nat_of_int 1)) | 'c' | 'y' -> Some (M.XEach (nat_of_int 2))
+  | _ -> None
+(* the op letters of a session that stand for an op, in order *)
+let xchars_of rest =
   let ops = match rest with [o] -> o | _ -> "" in
-  List.concat (List.init (String.length ops) (fun i -> match ops.[i] with
-    | 'n' -> [M.XNext] | 'r' -> [M.XRest] | 'e' -> [M.XErr] | 'z' -> [M.XReset] | 's' -> [M.XSplit]
-    | 'a' -> [M.XEach M.O] | 'b' -> [M.XEach (nat_of_int 1)] | 'c' -> [M.XEach (nat_of_int 2)]
-    | _ -> []))
+  List.filter (fun c -> xop_of_char c <> None) (List.init (String.length ops) (String.get ops))
+let xops_of rest = List.filter_map xop_of_char (xchars_of rest)
 
 let show_xout each_tag = function
   | M.XRNext (ok, t, c) -> "n" ^ b01 ok ^ ":" ^ hex t ^ ":" ^ b01 c
@@ -122,18 +126,54 @@ let parse_xout o =
             | [ok; t; c] -> M.XRNext (ok = "1", unhex t, c = "1") | _ -> M.XRPanic)
   | 's' -> (match String.split_on_char ':' (tail ()) with
             | [toks; t; c] -> M.XRSplit (unhexs toks, unhex t, c = "1") | _ -> M.XRPanic)
-  | 'a' | 'b' | 'c' -> (match String.split_on_char ':' (tail ()) with
+  | 'a' | 'b' | 'c' | 'x' | 'y' -> (match String.split_on_char ':' (tail ()) with
             | [toks; t; c] -> M.XREach (unhexs toks, unhex t, c = "1") | _ -> M.XRPanic)
   | _ -> M.XRPanic
 
 let eval_session = memo1 (fun (s, rest) ->
     let ops = xops_of rest in
     let outs = M.run_opsx (unhex s) (M.new_scanner (unhex s)) ops in
-    let tag = function M.XEach M.O -> "a" | M.XEach (M.S M.O) -> "b" | M.XEach _ -> "c" | _ -> "" in
-    let rec zip ops outs = match ops, outs with
-      | op :: ops', o :: outs' -> show_xout (tag op) o :: zip ops' outs'
+    let rec zip cs outs = match cs, outs with
+      | c :: cs', o :: outs' -> show_xout (String.make 1 c) o :: zip cs' outs'
       | _, _ -> [] in
-    String.concat ";" (zip ops outs))
+    String.concat ";" (zip (xchars_of rest) outs))
+
+(* K lines (round 4): a history of Quote / Join / Split(Join) / Split calls in one process over the
+   strings of a list; q<i> Quote(ss[i]), j<i>.<n> Join(ss[i:i+n]), r<i>.<n> Split(Join(ss[i:i+n])),
+   s<i> Split(ss[i]).  No call may depend on the calls before it: every op is evaluated on its own. *)
+let kop o =
+  let n = String.length o in
+  if n = 0 then ('?', 0, 0) else
+  let rest = String.sub o 1 (n - 1) in
+  let num s = try int_of_string s with _ -> 0 in
+  match String.index_opt rest '.' with
+  | Some d -> (o.[0], num (String.sub rest 0 d), num (String.sub rest (d + 1) (String.length rest - d - 1)))
+  | None -> (o.[0], num rest, 1)
+let rec kdrop k l = if k <= 0 then l else match l with [] -> [] | _ :: t -> kdrop (k - 1) t
+let rec ktake k l = if k <= 0 then [] else match l with [] -> [] | x :: t -> x :: ktake (k - 1) t
+let ksub l i n =
+  let len = List.length l in
+  let lo = min (max i 0) len in
+  let hi = min (max (i + n) lo) len in
+  ktake (hi - lo) (kdrop lo l)
+let kelem l i = if i < 0 then [] else match kdrop i l with x :: _ -> x | [] -> []
+let show_ksplit = function
+  | None -> "PANIC"
+  | Some (fs, ok) -> b01 ok ^ ":" ^ hexs fs
+(* the same call again in one line is evaluated once (its text is the key) *)
+let per_op f =
+  let seen = Hashtbl.create 8 in
+  fun o -> match Hashtbl.find_opt seen o with
+    | Some v -> v
+    | None -> let v = f o in Hashtbl.add seen o v; v
+let eval_k = memo1 (fun (ss, ops) ->
+    let l = unhexs ss in
+    String.concat ";" (List.map (per_op (fun o -> match kop o with
+      | ('q', i, _) -> "q" ^ hex (M.quote (kelem l i))
+      | ('j', i, n) -> "j" ^ hex (M.join (ksub l i n))
+      | ('r', i, n) -> "r" ^ show_ksplit (M.split (M.join (ksub l i n)))
+      | ('s', i, _) -> "s" ^ show_ksplit (M.split (kelem l i))
+      | _ -> "?")) (String.split_on_char ',' ops)))
 
 let eval inp =
   match words (unus inp) with
@@ -150,6 +190,7 @@ let eval inp =
     let rec prefixes acc = function [] -> [] | x :: r -> let p = acc @ [x] in p :: prefixes p r in
     hexs (List.map M.quote l) ^ ";" ^ hexs (List.map M.join (prefixes [] l))
   | "N" :: _k :: s :: rest -> eval_session (s, rest)
+  | ["K"; ss; ops] -> eval_k (ss, ops)
   | _ -> "?"
 
 (* "<0|1> <list>", decoded (the comparison is on the bytes, not on how the text writes them) *)
@@ -210,8 +251,60 @@ let spec_session = memo1 (fun (s, rest, out) ->
                | Some r -> r
                | None -> "observations rejected by the reference session checker (a token, Text, Complete or Err differs from the reference, Text/Complete changed after the end, or Rest is not exactly the unconsumed input)"))
 
+(* "<0|1>:<list>" of a K line, decoded *)
+let parse_ksplit o =
+  match String.split_on_char ':' o with
+  | [("0" | "1") as ok; fs] -> (try Some (unhexs fs, ok = "1") with _ -> None)
+  | _ -> None
+
+(* the property on every result of a K line, each judged on its own (by the transcription of the
+   shell grammar for C15, by the reference tokenizer for C16) -- what an earlier call of the history
+   left behind must not show in any of them *)
+let spec_k prop ss ops out =
+  let l = unhexs ss in
+  let ops = String.split_on_char ',' ops and outs = String.split_on_char ';' out in
+  if List.length ops <> List.length outs then
+    Some (if List.mem "PANIC" outs then "the package panicked" else if List.mem "RUNAWAY" outs then "the scanner never stops"
+          else "wrong number of results")
+  else begin
+    let nul = List.exists (List.mem M.N0) in
+    let judge = per_op (fun key ->
+        (* key = op ^ " " ^ result: the same call with the same result is judged once *)
+        let sp = String.index key ' ' in
+        let o = String.sub key 0 sp and r = String.sub key (sp + 1) (String.length key - sp - 1) in
+        let (kind, i, n) = kop o in
+        let body = if r = "" then "" else String.sub r 1 (String.length r - 1) in
+        if r = "" || r.[0] <> kind then Some "bad output syntax" else
+          (try match prop, kind with
+           | "C15", 'q' -> let x = kelem l i in
+             if nul [x] then None else
+             (match M.posix_words (unhex body) with
+              | Some [w] when w = x -> None
+              | Some ws -> Some ("a POSIX shell reads the quoted text as " ^ hexs ws)
+              | None -> Some "quoted text leaves a special character unquoted or a quote open")
+           | "C15", 'j' -> let xs = ksub l i n in
+             if nul xs then None else
+             (match M.posix_words (unhex body) with
+              | Some ws when ws = xs -> None
+              | Some ws -> Some ("a POSIX shell reads the joined text as " ^ hexs ws)
+              | None -> Some "joined text leaves a special character unquoted or a quote open")
+           | "C15", 'r' -> if parse_ksplit body = Some (ksub l i n, true) then None else Some "Split(Join(ss)) differs from (ss, true)"
+           | "C16", 's' -> let (fs, ok) = M.ref_split (kelem l i) in
+             if parse_ksplit body = Some (fs, ok) then None else Some ("reference tokenizer gives " ^ b01 ok ^ " " ^ hexs fs)
+           | _ -> None
+           with _ -> Some "bad output syntax")) in
+    let rec go k ops outs = match ops, outs with
+      | o :: ops', r :: outs' ->
+        (match judge (o ^ " " ^ r) with
+         | Some w -> Some ("call " ^ string_of_int k ^ " (" ^ o ^ "): " ^ w)
+         | None -> go (k + 1) ops' outs')
+      | _, _ -> None in
+    go 1 ops outs
+  end
+
 let spec prop inp out =
   match prop, words (unus inp) with
+  | _, ["K"; ss; ops] -> spec_k prop ss ops out
   | "C16", ["S"; s] ->
     let (fs, ok) = M.ref_split (unhex s) in
     if parse_split out = Some (fs, ok) then None
